@@ -191,11 +191,18 @@ pub fn generate_queries(out: &mut Out, ctx: &Ctx, tier: &str, seed: u64) {
     let thorough = tier == "thorough";
     let mut rng = Rng::new(seed ^ 0xC08_2);
     let nhist = if thorough { 60000 } else { 4000 };
-    let mut cfg = QCfg { pool: vec![], rts: vec![0, 0, 0, 1, 1, 2, 3, 3, 4, 5, 5], texts: true, unions: true, limits: true, max_depth: 2 };
+    let mut cfg = QCfg { pool: vec![], facts: vec![], rts: vec![0, 0, 0, 1, 1, 2, 3, 3, 4, 5, 5], texts: true, unions: true, limits: true, max_depth: 2 };
     for i in 0..nhist {
         let hcfg = GenCfg { max_ops: if i % 3 == 0 { 24 } else { 12 }, removals: if i % 2 == 0 { 2 } else { 0 }, invalid: 0, values: true };
         let ops = gen_history(&mut rng, &hcfg);
         cfg.pool = text_pool(&ops);
+        {
+            let mut store = new_store();
+            for op in &ops {
+                let _ = apply(&mut store, op);
+            }
+            cfg.facts = store_facts(&store, &mut rng);
+        }
         let mut entries = Vec::new();
         for _ in 0..3 {
             let mut outer = Vec::new();
@@ -206,6 +213,46 @@ pub fn generate_queries(out: &mut Out, ctx: &Ctx, tier: &str, seed: u64) {
             }
             if has_limit(&q) {
                 out.count("select_with_limit");
+            }
+            // which constraint forms occur in queries that return something (coverage of sem)
+            {
+                let mut store = new_store();
+                for op in &ops {
+                    let _ = apply(&mut store, op);
+                }
+                let rows = eval_prog(&store, &q);
+                let nonempty = rows.list().iter().any(|r| !r.list().is_empty());
+                let full = rows.list().iter().any(|r| r.list().len() >= 8);
+                fn kinds(q: &Q, out: &mut Vec<String>) {
+                    fn k(c: &Cst, rt: i64, out: &mut Vec<String>) {
+                        match c {
+                            Cst::Union(cs) => {
+                                out.push(format!("rt{}_union", rt));
+                                for c in cs {
+                                    k(c, rt, out);
+                                }
+                            }
+                            c => out.push(format!("rt{}_c{}", rt, cst_sx(c).nth(0).int())),
+                        }
+                    }
+                    for c in &q.cs {
+                        k(c, q.rt, out);
+                    }
+                    if let Some(s) = &q.sub {
+                        kinds(s, out);
+                    }
+                }
+                let mut ks = Vec::new();
+                kinds(&q, &mut ks);
+                for k in ks {
+                    out.count(&format!("gen_{}", k));
+                    if nonempty {
+                        out.count(&format!("hit_{}", k));
+                    }
+                }
+                if q.sub.is_some() && full {
+                    out.count("subquery_with_inner_rows");
+                }
             }
             for o in orderings(&q) {
                 entries.push(qentry(&o));
@@ -225,7 +272,7 @@ pub fn generate_queries(out: &mut Out, ctx: &Ctx, tier: &str, seed: u64) {
         }
         if i % 4 == 0 {
             // DELETE ANNOTATION ?x { SELECT ANNOTATION ?x WHERE ... }
-            let dcfg = QCfg { pool: cfg.pool.clone(), rts: vec![0], texts: false, unions: true, limits: true, max_depth: 0 };
+            let dcfg = QCfg { pool: cfg.pool.clone(), facts: cfg.facts.clone(), rts: vec![0], texts: false, unions: true, limits: true, max_depth: 0 };
             let mut outer = Vec::new();
             let sub = gen_query(&mut rng, &dcfg, &mut outer, 0);
             let req = l(vec![a(7), l(ops.clone()), a(sub.name), q_sx(&sub), a(0)]);
@@ -234,7 +281,7 @@ pub fn generate_queries(out: &mut Out, ctx: &Ctx, tier: &str, seed: u64) {
             out.count("delete");
         }
         if i % 4 == 1 {
-            let acfg = QCfg { pool: cfg.pool.clone(), rts: vec![0, 0, 1, 2, 3, 4], texts: false, unions: false, limits: true, max_depth: 1 };
+            let acfg = QCfg { pool: cfg.pool.clone(), facts: cfg.facts.clone(), rts: vec![0, 0, 1, 2, 3, 4], texts: false, unions: false, limits: true, max_depth: 1 };
             let mut outer = Vec::new();
             let sub = gen_query(&mut rng, &acfg, &mut outer, 0);
             let target = if sub.sub.is_some() && rng.chance(1, 2) { 1 } else { 0 };
